@@ -236,7 +236,7 @@ def check_cli_case(case, ctx):
                 raise Violation('cli:summary_numbers', 'summary line says {} expected {}\n{}'.format(nums, want, where))
         # a named doctest through the CLI (the first disabled one if there is one)
         pick = [x for x in inv if x['disabled']] or inv
-        if pick:
+        if pick and case.get('named_all', True):
             x = pick[0]
             rc, out, err = _run(['-m', 'xdoctest', path, x['id'], '--style=' + style], cwd, env_extra)
             got = sorted(_read_trace(trace))
@@ -288,12 +288,24 @@ CORNERS = [
     ('single_fail', ['fail_last']),
     ('single_pass', ['pass']),
     ('single_skip', ['all_skipped']),
+    ('comment_beside_skipped', ['comment_then_skipped', 'skipped_then_comment']),
+    ('failures_256', ['fail_exc'] * 256),        # an exit status equal to the number of failures would wrap to 0
+    ('failures_257', ['fail_out'] * 257),
 ]
 
 
 def corners(ctx, cli):
     """the corner mixes named in the property, every style x verbosity (in process) or one CLI run each"""
     for cname, kinds in CORNERS:
+        if cname.startswith('failures_'):
+            # hundreds of failing doctests: one in-process 'all' run and one CLI run (the exit status is what matters)
+            funcs = [{'name': 'f{}'.format(i), 'layout': 'google', 'in_class': False, 'blocks': [{'kind': k, 'pattern': None}]}
+                     for i, k in enumerate(kinds)]
+            case = {'funcs': funcs, 'style': 'google', 'verbose': 0 if not cli else 1, 'named_all': False}
+            if cli:
+                case['cli'] = True
+            ctx.guard(_check, case)
+            continue
         for layout in ('google', 'bare'):
             funcs = [{'name': 'f{}'.format(i), 'layout': layout, 'in_class': False,
                       'blocks': [{'kind': k, 'pattern': outcomes.DISABLE_PATTERNS[i % len(outcomes.DISABLE_PATTERNS)]
